@@ -6,6 +6,7 @@ import (
 	"os"
 
 	"verifharness/common"
+	"verifharness/conc"
 	"verifharness/hdr"
 	"verifharness/netx"
 	"verifharness/pow"
@@ -25,6 +26,9 @@ func main() {
 		fmt.Sscan(os.Args[4], &per)
 		fmt.Sscan(os.Args[6], &only)
 		os.Exit(netx.C15Worker(seed, batch, per, os.Args[5], only))
+	}
+	if prop == "c20load" {
+		os.Exit(conc.C20LoadWorker(os.Args[2]))
 	}
 	if prop == "dump" {
 		hdr.DumpReplay(os.Args[2])
@@ -55,6 +59,8 @@ func dispatch(prop, tier string, seed int64) int {
 		return pow.RunC02(tier, seed)
 	case "C14":
 		return netx.RunC14(tier, seed)
+	case "C20":
+		return conc.RunC20(tier, seed)
 	case "C15":
 		return netx.RunC15(tier, seed, os.Getenv("VERIF_RACE_PASS") != "")
 	case "C13":
